@@ -81,9 +81,11 @@ def check_case(case, ex):
     for api in APIS:
         for sc in SCANNERS:
             cfg = '%s/%s/ns=%d' % (api, sc, case['ns'])
+            # validation-off run on two of the four (api, scanner) pairs: the diagonal or the anti-diagonal, drawn per case
+            off = ((api == 'sax2') == (sc == 'IG')) == bool(case.get('off_diag', 1))
             try:
                 ev1 = parse(ex, case, api, sc, 1)
-                ev0 = parse(ex, case, api, sc, 0)
+                ev0 = parse(ex, case, api, sc, 0) if off else []
             except xv.ExecutorDied as e:
                 return False, '[%s] executor died rc=%s\n%s' % (cfg, e.rc, e.stderr[-3000:])
             errs1, exc1, rest1 = split_events(ev1)
@@ -119,7 +121,7 @@ def check_case(case, ex):
                 for c in exp:
                     if not (codes & CLASS_CODES[c]):
                         return False, '[%s] violated class %s (injected: %s): none of codes %s among reported %s' % (cfg, c, case.get('injected'), sorted(CLASS_CODES[c]), sorted(codes))
-            if case.get('meta', True):
+            if case.get('meta', True) and off:
                 a = meta_norm(rest1); b = meta_norm(rest0)
                 if a != b:
                     for i in range(max(len(a), len(b))):
@@ -150,11 +152,11 @@ def lane_a(draw, tier):
     leaf = {n: ch.pick(['EMPTY', 'EMPTY', 'ANY', '(#PCDATA)']) for n in alphabet}
     loc = ch.pick(['int', 'int', 'ext', 'split'])
     text, files, rows = dm.exhaustive_doc(cm, alphabet, L, leaf, ch, loc)
-    return {'lane': 'A', 'cm': cm, 'alphabet': alphabet, 'L': L, 'text': text, 'files': files, 'rows': rows, 'loc': loc, 'ns': int(ch.bool())}
+    return {'lane': 'A', 'cm': cm, 'alphabet': alphabet, 'L': L, 'text': text, 'files': files, 'rows': rows, 'loc': loc, 'ns': int(ch.bool()), 'off_diag': int(ch.bool())}
 
 def build_a(g):
     rows = [[ln, ' '.join(seq), bool(ok)] for ln, seq, ok, agree in g['rows'] if agree]
-    return {'lane': 'A', 'ns': g['ns'], 'model': dm.render_cm(g['cm']), 'doc_b64': b64(g['text']), 'files_b64': {k: b64(v) for k, v in g['files'].items()},
+    return {'lane': 'A', 'ns': g['ns'], 'off_diag': g['off_diag'], 'model': dm.render_cm(g['cm']), 'doc_b64': b64(g['text']), 'files_b64': {k: b64(v) for k, v in g['files'].items()},
             'rows': rows, 'meta': False}
 
 @st.composite
@@ -175,7 +177,7 @@ def lane_bc(draw, tier):
     prolog, files = dm.render_dtd(dtd, ch, doc['standalone'], doc['doctype'])
     trailer = ch.pick(['', '\n', '\n<!-- end -->', '<?p x?>\n'])
     text = prolog + dm.render_doc_node(doc['root']) + trailer
-    return {'lane': 'C' if injected else 'B', 'dtd': dtd, 'doc': doc, 'injected': injected, 'text': text, 'files': files, 'ns': int(ch.bool())}
+    return {'lane': 'C' if injected else 'B', 'dtd': dtd, 'doc': doc, 'injected': injected, 'text': text, 'files': files, 'ns': int(ch.bool()), 'off_diag': int(ch.bool())}
 
 def shape_labels(dtd, doc):
     L = set()
@@ -219,9 +221,15 @@ NONTRIV_B = {'uses-cm-ops>=2', 'defaulted-attr', 'tokenised-attr', 'entity-ref',
 def build_bc(g, st_):
     V = dm.violations(g['dtd'], g['doc'])
     if 'ORACLE-DISAGREE' in V: return None
+    if 'sa-norm' in V and dm.sa_norm_undetected(g['dtd'], g['doc']):
+        st_.excluded_known['C07-sa-attnorm-trailing-inner'] += 1
+        return 'excluded'
+    if 'bad-enum' in V and dm.enum_multi_only(g['dtd'], g['doc']):
+        st_.excluded_known['C07-enum-multiple-tokens-accepted'] += 1
+        return 'excluded'
     classes = sorted(V)
     meta = not (V & NO_META)
-    return {'lane': g['lane'], 'ns': g['ns'], 'doc_b64': b64(g['text']), 'files_b64': {k: b64(v) for k, v in g['files'].items()},
+    return {'lane': g['lane'], 'ns': g['ns'], 'off_diag': g['off_diag'], 'doc_b64': b64(g['text']), 'files_b64': {k: b64(v) for k, v in g['files'].items()},
             'classes': classes, 'injected': g['injected'], 'meta': meta, 'doc_preview': g['text'][:1500],
             'files_preview': {k: v[:600] for k, v in g['files'].items()}}
 
@@ -250,6 +258,7 @@ def worker(ctx):
 
     def prop_bc(g):
         case = build_bc(g, st_)
+        if case == 'excluded': return
         if case is None:
             st_.oracle_disagreements += 1; return
         if g['lane'] == 'B' and case['classes']:
